@@ -70,6 +70,19 @@ pub fn check(case: &Case, r: &mut CaseResult) {
         }
     };
     let out = fmt::apply(&case.text, &f);
+    // computed lazily: does the recorded baseline format this document to the same text?
+    let baseline_same = std::cell::OnceCell::new();
+    let as_baseline = || {
+        *baseline_same.get_or_init(|| {
+            let u = crate::srv::default_uri();
+            match crate::pinned_lsp::answer("textDocument/formatting", &u, &case.text, crate::pinned_lsp::formatting_params(&u, case.opts.tab_size, case.opts.insert_spaces)) {
+                // the part of the answer the property speaks about: the comments of the result
+                Ok(Value::Null) => reflex::comments(&out) == reflex::comments(&case.text),
+                Ok(v) => v.as_array().map_or(false, |a| a.len() == 1 && a[0]["newText"].as_str().map_or(false, |t| reflex::comments(t) == reflex::comments(&out))),
+                Err(_) => false,
+            }
+        })
+    };
     let before = reflex::comments(&case.text);
     let after = reflex::comments(&out);
     let mut all_once = true;
@@ -78,7 +91,7 @@ pub fn check(case: &Case, r: &mut CaseResult) {
         let n = after.iter().filter(|a| a.as_str() == want).count();
         if n == 0 {
             all_once = false;
-            r.fail(format!("lost|{}", site), format!("the comment `//{}` written at site {} is missing from the formatted document", c, site), detail(&out));
+            r.fail(crate::pinned_lsp::triage(format!("lost|{}", site), as_baseline()), format!("the comment `//{}` written at site {} is missing from the formatted document", c, site), detail(&out));
         } else if n > 1 {
             all_once = false;
             r.fail(format!("duplicated|{}", site), format!("the comment `//{}` written at site {} appears {} times in the formatted document", c, site, n), detail(&out));
